@@ -115,6 +115,18 @@ def pred_1d(case):
         if np.abs(back - data).max() > tol:
             raise Violation("C08:%s:complex-roundtrip" % tag, "complex interpolant misses its data by %.3e (tol %.3e)"
                             % (np.abs(back - data).max(), tol))
+        # the same complex interpolator and spline re-used (as the Poisson solver does for every mode), including data whose
+        # imaginary part is identically zero and plain float data
+        seq = [np.real(data) + 0j, (data * (0.5 - 2j))[::-1].copy(), np.imag(data).astype(float), data.copy()]
+        for k, d2 in enumerate(seq):
+            with crash_is_violation("C08:complex", "complex interpolation (re-used objects)"):
+                interp.compute_interpolant(d2.copy(), sc)
+            want2 = np.linalg.solve(A, d2)
+            s2 = float(np.abs(d2).max()) + 1e-300
+            if np.abs(sc.coeffs - want2).max() > 1e3 * EPS * cond * s2:
+                raise Violation("C08:%s:complex-reuse" % tag, "re-used complex interpolator/spline, call %d (%s data): coefficients differ "
+                                "from the dense solve by %.3e (tol %.3e)" % (k + 2, "real-valued" if not np.iscomplexobj(d2) or not np.imag(d2).any() else "complex",
+                                                                           np.abs(sc.coeffs - want2).max(), 1e3 * EPS * cond * s2))
         return {"nontrivial": n >= 3, "labels": [tag, "complex", "deg%d" % p]}
     with crash_is_violation("C08:interp1d", "compute_interpolant"):
         spl = Spline1D(basis)
